@@ -122,6 +122,12 @@ def boundary_cases(vidx=0):
     add('transfer,whole-exact,unit=g', W, [], T('D', 'Z', f"{e1.VALUATIONS[vidx]['tea'][2]} g"), 'accept')
     add('transfer,whole-exact,unit=g', W, [], T('K', 'Z', '150 mg'), 'accept')
     add('transfer,whole-exact,unit=U', W, [], T('S', 'Z', '3 U'), 'accept')
+    # exactly what the source reports as its volume, at magnitudes where 1e-10 of the storage unit is below double precision
+    for contents in ([('water', '2 L'), ('nacl', '0.2 mol'), ('lipase', '20 U')], [('dmso', '1.5 L')],
+                     [('water', '731.5 mL'), ('na2so4', '33.3 g')], [('tea', '0.3 mL'), ('nacl', '7 mg')]):
+        Wb = dict(W, S=('container', 'inf L', contents))
+        add('transfer,whole-as-reported,unit=L', Wb, [], T('S', 'D', '@volume'), 'accept')
+        add('transfer,whole-as-reported,unit=L', Wb, [T('S', 'D', '@third')], T('S', 'D', '@volume'), 'accept')
     # 3. destination capacity: container, well, k-th well of a slice
     for q, expect, tag in (('10 mL', 'either', 'at'), ('9.99 mL', 'accept', 'below'), ('10.01 mL', 'refuse', 'above')):
         Wc = dict(W, S=('container', 'inf L', [('water', '40 mL')]))
@@ -203,6 +209,9 @@ def symbolic(pp, subs, world, act):
         _, _, f, unit = q.split('@')
         cur = ref.measure(pp, world[e1.refname(act['obj'])].contents, unit)
         act['q'] = f"{float(cur) * float(f) * 1000:.9g} m{unit}"
+    elif q in ('@volume', '@third'):                 # the source's own reported volume, printed exactly
+        v = world[act['src']].volume
+        act['q'] = f"{(v if q == '@volume' else v / 3)!r} {pp.config.volume_storage_unit}"
     elif q.startswith('@'):                          # transfer: factor x what the source holds
         _, f, unit = q.split('@')
         total = ref.measure(pp, world[act['src']].contents, unit)
@@ -233,7 +242,11 @@ def run_case(case, vidx=None):
     pp = _G.get('pp') or env.load()
     vidx = _G.get('vidx', 0) if vidx is None else vidx
     spec = {k: tuple(v) for k, v in case['spec'].items()}
-    subs, world = e1.build(pp, vidx, spec, case['pre'])
+    subs, world = e1.build(pp, vidx, spec, [])
+    for pa in case['pre']:
+        o = e1.apply(pp, subs, world, symbolic(pp, subs, world, pa))
+        if o['ok']:
+            world = e1.commit(world, o)
     act = dict(case['act'])
     expect = case['expect']
     act = symbolic(pp, subs, world, act)
